@@ -19,7 +19,7 @@ def one(diff):
                     dst = os.path.join(wt, os.path.relpath(base, "/repo"))
                     os.makedirs(dst, exist_ok=True)
                     shutil.copy(os.path.join(base, f), dst)
-        p = subprocess.run(["patch", "-p1", "-s", "-i", diff], cwd=wt, capture_output=True, text=True)
+        p = subprocess.run(["patch", "-p1", "-s", "-i", os.path.abspath(diff)], cwd=wt, capture_output=True, text=True)
         if p.returncode != 0:
             return diff, "noapply", [(p.stdout + p.stderr)[-300:]]
         q = subprocess.run([sys.executable, "-m", "vt.check", "--all", "--no-write"], cwd=ROOT, env=dict(os.environ, VT_REPO=wt),
